@@ -340,4 +340,17 @@ func (w *AWorld) populateDirCopy(from, to string) {
 
 type simfsFileMode = fs.FileMode
 
-func fsMode(p uint32) simfsFileMode { return simfsFileMode(p) }
+// fsMode translates unix permission bits (incl. sticky / setgid / setuid) into fs.FileMode.
+func fsMode(p uint32) simfsFileMode {
+	m := simfsFileMode(p & 0o777)
+	if p&0o1000 != 0 {
+		m |= fs.ModeSticky
+	}
+	if p&0o2000 != 0 {
+		m |= fs.ModeSetgid
+	}
+	if p&0o4000 != 0 {
+		m |= fs.ModeSetuid
+	}
+	return m
+}
